@@ -146,8 +146,6 @@ Theorem bystander_same_outcome sc1 sc2 sched1 sched2 s1 tr1 s2 tr2 u :
 Proof.
   intros EB ND HI R1 R2 Q1 Q2 N1 N2 HT.
   assert (ED : delivered sc2 = delivered sc1) by (unfold delivered; rewrite EB; reflexivity).
-  assert (EK : forall f t, kof sc1 u = mkK f false t -> kof sc2 u = mkK f false t).
-  { intros f t. unfold kof. rewrite EB, N1, N2. auto. }
   assert (HT2 : has_limit sc2 u = false).
   { unfold has_limit in *. unfold kof in *. rewrite EB in HT. destruct (find _ _); exact HT. }
   assert (EF : fault_of sc2 u = fault_of sc1 u).
